@@ -7,7 +7,7 @@ MODULE = "NadaVerif.Props.C03"
 TRANSLATORS = None
 THEOREMS = [f"NadaVerif.C03.{n}" for n in (
     "table_no_declass", "bin_no_declass", "ifElse_no_declass", "truncPr_invert_no_declass", "random_is_secret",
-    "mirName_secret_iff")]
+    "mirName_secret_iff", "typed_covers_taint", "call_args_covered", "rewrap_declassifies")]
 
 
 def oracle(mir, rec):
